@@ -528,6 +528,27 @@ def o_gcp(case, T):
             require(abs(float(back[0]) - ex[0]) <= lim and abs(float(back[1]) - ex[1]) <= lim, "%s: derived wld2pix=%r, parent's wld2pix mapped through the contract=%r", op, (float(back[0]), float(back[1])), ex)
     ext = out.extent
     require(ext.crs == out.crs and ext.geom_type == "Polygon", "GCP extent type/crs")
+    # resolution of the (derived) box = size of its pixel under its own pix2wld (same relation as for linear boxes:
+    # |res.x| = length of the pixel's x edge, |res.x*res.y| = pixel area), measured at the centre of the support
+    cx = (min(p[0] for p in case["pts"]) + max(p[0] for p in case["pts"])) / 2
+    cy = (min(p[1] for p in case["pts"]) + max(p[1] for p in case["pts"])) / 2
+    ci, cj = (cx - off[0]) / sc[0], (cy - off[1]) / sc[1]
+    h = 0.5
+    p0, p1 = out.pix2wld(ci - h, cj), out.pix2wld(ci + h, cj)
+    q0, q1 = out.pix2wld(ci, cj - h), out.pix2wld(ci, cj + h)
+    ex = (float(p1[0]) - float(p0[0]), float(p1[1]) - float(p0[1]))
+    ey = (float(q1[0]) - float(q0[0]), float(q1[1]) - float(q0[1]))
+    lx = math.hypot(*ex)
+    area = abs(ex[0] * ey[1] - ex[1] * ey[0])
+    res = out.resolution
+    # GCP resolution is that of the best affine fit: exact for affinely related points; for bent maps it is only
+    # "up to the (affine) fit error" and not decided here
+    rtol = 1e-6
+    if bend != 0:
+        lx = abs(res.x)
+        area = abs(res.x * res.y)  # not decided for bent maps (anisotropic pixels make any bound meaningless)
+    require(abs(abs(res.x) - lx) <= rtol * lx, "%s: GCP box resolution.x=%r but its pixel x-edge is %r world units long", op, res.x, lx)
+    require(abs(abs(res.x * res.y) - area) <= 2 * rtol * area, "%s: GCP box |res.x*res.y|=%r but its pixel area is %r", op, abs(res.x * res.y), area)
     T.nontrivial((op, case["kind"], n >= 9, bend > 0, case["klass"]))
     T.cls("op:" + op)
     T.cls("pts:" + case["kind"])
